@@ -6,4 +6,4 @@ if [ ! -d $W/repo ]; then mkdir -p $W/verif; git -C /repo worktree add -q --deta
 cp /verif/known_functions.txt /verif/known_findings.json $W/verif/
 git -C $W/repo checkout -q -- . ; git -C $W/repo clean -fdq
 git -C $W/repo apply /verif/benign/$S/patch.diff || exit 2
-/verif/bin/galint check $P -tier quick -noselftest -repo $W/repo -verif $W/verif 2>&1 | grep -v "^WARNING" | grep -v "^VIOLATION" | tail -${3:-6} | cut -c1-${COLS:-500}
+${GALINT:-/verif/bin/galint} check $P -tier quick -noselftest -repo $W/repo -verif $W/verif 2>&1 | grep -v "^WARNING" | grep -v "^VIOLATION" | tail -${3:-6} | cut -c1-${COLS:-500}
